@@ -27,8 +27,8 @@ TRUSTED = [
     "modelled, not verified: IEEE float32/float64 arithmetic of the statistics (harness evaluators return dyadic values so "
     "that every float sum is exact; priors compared to 2e-6 relative because child_probs /= sum is a float32 division), "
     "torch tensor indexing/nonzero/comparison semantics, torch.multinomial and Dirichlet.sample as oracles whose draws are recorded",
-    "the game-over test inside the driver is a small copy of Position.winner() (Driver/Tree.lean) until Model/Winner.lean (C02) is linked; "
-    "the move-id table is taken from the implementation's own decode_move (numbering is C07's property)",
+    "the driver adjudicates with Impl.winner (Model/Winner.lean; equal to Spec.outcome by C02_winner_spec); the move-id table handed to the "
+    "driver is the implementation's own decode_move table, whose identity with Gen.allMovesForSize (the table of the …_real corollaries) is C07's exhaustive tie",
     "legality of expansions rests on Tak.C01.C01_move_refines_rules (imported from Props/C01.lean, no hypothesis left open)",
 ]
 ASSUMPTIONS = [
@@ -66,7 +66,7 @@ def plan(ctx, scale=1.0):
         budgets = {3: [1, 2, 3, 5, 8, 13, 25, 50, 100, 200, 400], 4: [1, 2, 4, 9, 20, 50, 120, 400], 5: [1, 3, 7, 20, 60, 150], 6: [1, 2, 5, 15, 40, 100]}
         big = [(3, 400), (4, 400), (5, 400), (6, 400)]
     else:
-        sizes = {3: 70, 4: 36, 5: 16, 6: 8}
+        sizes = {3: 60, 4: 30, 5: 13, 6: 6}
         budgets = {3: [1, 2, 3, 5, 8, 13, 25, 50, 100, 200], 4: [1, 2, 4, 9, 20, 50, 120], 5: [1, 3, 7, 20, 40], 6: [1, 2, 5, 12]}
         big = [(3, 400)]
     for size, count in sizes.items():
@@ -83,6 +83,15 @@ def plan(ctx, scale=1.0):
             if rng.random() < 0.35:
                 reuse = n + rng.choice([1, 2, 5, max(1, n // 2)])
             cases.append(td.make_case(rng, size, pos, evaluator, n, rng.random() < 0.4, reuse))
+    # searches rooted one to three plies before the end of a game, every kind of ending
+    for size, per_class in ({3: 8, 4: 5, 5: 2} if ctx.thorough else {3: 3, 4: 2}).items():
+        per_class = max(1, int(per_class * scale))
+        for cls, pos in td.endgame_positions(rng, size, per_class):
+            n = rng.choice([4, 12, 30, 60] if size == 3 else [8, 25, 60])
+            reuse = n + rng.choice([3, 10]) if rng.random() < 0.3 else None
+            c = td.make_case(rng, size, pos, rng.choice(["uniform", "random", "adversarial", "uniform"]), n, rng.random() < 0.3, reuse)
+            c["family"] = "endgame:" + cls
+            cases.append(c)
     for size, n in big:
         pos = td.start_positions(rng, size, 2, custom_prob=0.0)[0]
         cases.append(td.make_case(rng, size, pos, rng.choice(["uniform", "random"]), n, size == 3, None))
@@ -139,8 +148,9 @@ def check_run(res, ctx=None):
         trees.append(impl)
         if ctx is not None:
             ctx.evaluated()
-            nodes, exp, depth, term = td.tree_shape(impl)
+            nodes, exp, depth, term, draws = td.tree_shape(impl)
             ctx.count("finished-games-visited", term)
+            ctx.count("drawn-games-visited", draws)
             if term:
                 ctx.count("trees-with-finished-games")
             ctx.count("phase:%s" % ("fresh" if k == 0 else "reused"))
@@ -209,6 +219,8 @@ def tie(ctx):
     for case in plan(ctx):
         ctx.count("evaluator:" + case["evaluator"])
         ctx.count("size:%d" % case["size"])
+        if case.get("family"):
+            ctx.count("start:" + case["family"])
         ctx.count("noise:%s" % ("on" if case["noise_alpha"] is not None else "off"))
         ctx.count("sampler:" + case["sampler"])
         res = td.run_case(case)
